@@ -113,6 +113,26 @@ func BuildHAProxyEndpointsRequest(
 	}
 }
 
+// EndpointsToUnmanage returns the previously managed endpoints whose expression the
+// new configuration no longer registers. The two lists hold freshly built values, so
+// they must be compared by expression: an endpoint that stays must stay managed.
+func EndpointsToUnmanage(
+	previous []*HAProxyEndpointData,
+	current []*HAProxyEndpointData,
+) []*HAProxyEndpointData {
+	stillManaged := map[string]struct{}{}
+	for _, endpoint := range current {
+		stillManaged[endpoint.Endpoint] = struct{}{}
+	}
+	toUnmanage := []*HAProxyEndpointData{}
+	for _, endpoint := range previous {
+		if _, found := stillManaged[endpoint.Endpoint]; !found {
+			toUnmanage = append(toUnmanage, endpoint)
+		}
+	}
+	return toUnmanage
+}
+
 func WaitForProxyHealthcheck() error {
 	retryConfig := client.RetryConfig{
 		Attempts:           timesToRetry,
